@@ -129,7 +129,7 @@ def check_date(ck, date, seen):
             common.spurious("C08", what + f" -> {rep}")
 
 
-TEMPLATES = [(2, 0), (1, 1), (2, 1), (2, 3), (1, 4), (2, 5)]
+TEMPLATES = [(2, 0), (1, 1), (2, 1), (2, 3), (1, 4), (2, 5), (2, 10)]
 
 
 def template_cones(ck, dag, date, n, fname, kinds):
